@@ -6,6 +6,8 @@ operation) and by comparing, at every read, matrices / solution / results with a
 built directly in the final configuration.
 -/
 import EasyFEAVerif.Model.Coherence
+import EasyFEAVerif.Model.Sources
+import EasyFEAVerif.Gen.C14.Observers
 import Mathlib.Tactic.Linarith
 import Mathlib.Data.List.Basic
 
@@ -125,5 +127,46 @@ theorem unfixed_bcinit_is_stale :
 example : Fresh (step ([Op.read, .setParam, .replaceMesh, .read, .moveMesh 1, .bcLagrange, .backToMesh 0, .moveMesh 0].foldl step init) .read) := by
   refine ⟨rfl, rfl, ?_, rfl⟩
   simp [step, init, coordBump]
+
+
+/-! ### Who observes whom (Model/Sources.lean, registrations extracted by tools/py2lean/gen_c14.py) -/
+
+section Wiring
+open EasyFEAVerif
+
+def wiringOf (c : String) : Sources.Wiring :=
+  { deps := ((Sources.depsOf.lookup c).getD []).map Sources.idOf, observed := ((Gen.C14.observersOf.lookup c).getD []).map Sources.idOf }
+
+def classes : List String := Sources.depsOf.map (·.1)
+
+/-- the two tables speak about the same classes and only about numbered Sources.holders (the numbering is injective on them) -/
+theorem tables_wellformed :
+    Gen.C14.observersOf.map (·.1) = classes ∧
+    (Sources.depsOf.all fun e => e.2.all Sources.holders.contains) = true ∧
+    (Gen.C14.observersOf.all fun e => e.2.all Sources.holders.contains) = true ∧ Sources.holders.Nodup := by
+  decide
+
+/-- **every parameter holder a simulation's matrices are computed from is observed by that simulation**
+(on the registrations extracted from the constructors of the current source) -/
+theorem observers_cover_dependencies : ∀ c ∈ classes, ∀ d ∈ (wiringOf c).deps, d ∈ (wiringOf c).observed := by
+  decide
+
+/-- consequence, for every simulation class and every sequence of parameter assignments (on any of the Sources.holders, observed
+or not) and reads: what a read returns was assembled from the current parameters -/
+theorem class_read_fresh (c : String) (hc : c ∈ classes) (ops : List Sources.Op) :
+    Sources.Fresh (wiringOf c) (Sources.step (wiringOf c) (Sources.run (wiringOf c) Sources.init ops) .read) :=
+  Sources.read_fresh _ (observers_cover_dependencies c hc) ops
+
+/-- the wiring of `InElastic` before the `fix:` commit 93c1cd0 (the elastic law inside the behavior was not observed):
+[read, assign a parameter of that law, read] returns stale matrices -/
+theorem inelastic_unfixed_is_stale :
+    ¬ Sources.Fresh { deps := (wiringOf "InElastic").deps, observed := [Sources.idOf "model", Sources.idOf "mesh"] }
+        (Sources.run { deps := (wiringOf "InElastic").deps, observed := [Sources.idOf "model", Sources.idOf "mesh"] } Sources.init
+          [.read, .set (Sources.idOf "model.elastic"), .read]) :=
+  Sources.unobserved_dep_goes_stale _ _ (by decide) (by decide)
+
+example : (wiringOf "InElastic").deps = [0, 1, 3] ∧ (wiringOf "PhaseField").observed = [0, 1, 4] := by decide
+
+end Wiring
 
 end EasyFEAVerif.Props.C14
